@@ -12,7 +12,7 @@ Exhaustive: Dataplane.tla — InjectFault (an on-path egress interface down, all
 AS expired, a router-alert flag on an on-path interface) + DataplaneOps!ScmpReply (transcription of the
 path part of prepareSCMP: reverse, revert the cross-over, SegID update + increment on external links);
 invariant AnswersComeBack.  (With the pre-fix check order — SCMP 'path expired' raised before the
-ingress SegID update — TLC produces the counterexample of /repo 9f23998.)"""
+ingress SegID update — TLC produces the counterexample of /repo a0b7ee6.)"""
 import _dp
 
 
